@@ -1,12 +1,88 @@
 import Driver.Util
-/- Line-protocol handler for the `sys` model (stub until the model exists). -/
+import Munge.Model.Sys
+import Munge.Model.ToyPrims
+/- Line-protocol handler for the `sys` model (same ops as harness/h_sys.c): one concurrent scenario per line. -/
 namespace Driver.Sys
+open Munge Munge.Cred Munge.Sys
 
 structure St where
   dummy : Unit := ()
 
 def init : St := {}
 
-def step (st : St) (_args : List String) : St × String := (st, "bad-op")
+def kvOf (w : String) : Option (String × String) :=
+  match w.splitOn "=" with
+  | [k, v] => some (k, v)
+  | _ => none
+
+def flag (args : List String) (key : String) : Option String :=
+  (args.filterMap kvOf).find? (·.1 == key) |>.map (·.2)
+
+/-- the configuration of harness/h_sys.c (`conf_defaults`) -/
+def cf0 : Conf :=
+  { macKey := (List.range 20).map (fun i => UInt8.ofNat (0x11 + i)),
+    dekKey := (List.range 20).map (fun i => UInt8.ofNat (0x77 - i)) }
+
+/-- `mem=v:u:g;…` : membership triples (gid-map version, uid, gid) -/
+def parseMem (s : String) : List (Nat × Nat × Nat) :=
+  if s == "-" then [] else
+  (s.splitOn ";").filterMap fun t =>
+    match t.splitOn ":" with
+    | [v, u, g] => do pure ((← v.toNat?), (← u.toNat?), (← g.toNat?))
+    | _ => none
+
+def world (mem : List (Nat × Nat × Nat)) : World :=
+  { P := ToyPrims.prims, cf := cf0,
+    gidMaps := fun ver u g => mem.contains (ver % 4, u, g),
+    stream := fun i => UInt8.ofNat ((((i / 4) * 2654435761 + 12345) % 4294967296) / 256 ^ (i % 4) % 256) }
+
+/-- `r=<hex>:<uid|fail>:<gid>:<now|fail>:<sendok>` -/
+def parseReq (s : String) : Option Req :=
+  match s.splitOn ":" with
+  | [h, u, g, t, ok] => do
+    let bytes ← hexArg h
+    let peer : Option (Nat × Nat) := if u == "fail" then none else some (u.toNat?.getD 0, g.toNat?.getD 0)
+    let now : Int := if t == "fail" then -1 else t.toInt?.getD 0
+    pure { bytes := bytes, peer := peer, now := now, sendOk := ok != "0" }
+  | _ => none
+
+def stepOfName : String → Option Step
+  | "recv" => some .recv | "lookup" => some .lookup | "salt" => some .salt | "iv" => some .iv
+  | "insert" => some .insert | "send" => some .send | "remove" => some .remove
+  | _ => none
+
+def parseAct (s : String) : Option Act :=
+  if s == "swap" then some .swap
+  else if s.startsWith "purge@" then (s.drop 6).toString.toInt?.map Act.purge
+  else match s.splitOn "." with
+    | [i, st] => do pure (.req (← i.toNat?) (← stepOfName st))
+    | _ => none
+
+def showOuts (σ : State) (k : Nat) : String :=
+  String.intercalate " " ((List.range k).map fun i => s!"o{i}={Hex.showHex ((outOf σ i).getD [])}")
+
+def step (st : St) (args : List String) : St × String :=
+  match args with
+  | "scen" :: rest =>
+    let reqs := rest.filterMap fun w => if w.startsWith "r=" then parseReq (w.drop 2).toString else none
+    match flag rest "sched" with
+    | none => (st, "bad-op")
+    | some sched =>
+      if reqs.isEmpty then (st, "bad-op")
+      else if sched == "free" then (st, "free")
+      else
+        let W := world (parseMem ((flag rest "mem").getD "-"))
+        let acts := (sched.splitOn ",").filterMap parseAct
+        -- the harness runs whatever is left to completion, request by request
+        let acts := acts ++ (List.range reqs.length).flatMap program
+        let σ := run W reqs (initState []) acts
+        (st, s!"{showOuts σ reqs.length} rs={σ.sh.replay.length}")
+  | ["one", h, u, g, t] =>
+    match parseReq s!"{h}:{u}:{g}:{t}:1" with
+    | none => (st, "bad-op")
+    | some r =>
+      let σ := run (world []) [r] (initState []) (program 0)
+      (st, showOuts σ 1)
+  | _ => (st, "bad-op")
 
 end Driver.Sys
